@@ -93,12 +93,15 @@ func (o X2Claims) MarshalJSON() ([]byte, error)     { return encoding.SerializeS
 func (o *X2Claims) UnmarshalJSON(data []byte) error { return encoding.PopulateStructFromJSON(data, o) }
 
 func newP2Base(name string) psatoken.P2Claims {
+	// (a name that is no URI / OID - a built-in profile-1 name under which registration must fail anyway -
+	// leaves the profile claim unset instead of stopping the harness)
+	var pp *eat.Profile
 	p := eat.Profile{}
-	if err := p.Set(name); err != nil {
-		panic(err)
+	if err := p.Set(name); err == nil {
+		pp = &p
 	}
 	return psatoken.P2Claims{
-		Profile:          &p,
+		Profile:          pp,
 		SwComponents:     &psatoken.SwComponents[*psatoken.SwComponent]{},
 		CanonicalProfile: name,
 	}
@@ -187,11 +190,12 @@ func (g GenProfile) GetClaims() psatoken.IClaims {
 	case "X2":
 		return &X2Claims{P2Claims: newP2Base(g.Name)}
 	case "X4":
+		var pp *eat.Profile
 		p := eat.Profile{}
-		if err := p.Set(g.Name); err != nil {
-			panic(err)
+		if err := p.Set(g.Name); err == nil {
+			pp = &p
 		}
-		return &X4Claims{Profile: &p, P1Claims: psatoken.P1Claims{
+		return &X4Claims{Profile: pp, P1Claims: psatoken.P1Claims{
 			SwComponents: &psatoken.SwComponents[*psatoken.SwComponent]{}, CanonicalProfile: g.Name}}
 	case "X7":
 		b := newP2Base(g.Name)
